@@ -282,8 +282,12 @@ func MinimalVocabs() []ExtVocab {
 				ts = append([]ExtType{x}, ts...)
 			}
 		}
-		out = append(out, ExtVocab{Label: "type-" + t.Name, Types: ts,
-			Props: []ExtProp{{Name: fmt.Sprintf("vt%d", i), Domain: []string{t.Name}, Range: []string{"xsd:string"}, Functional: i%2 == 0}}})
+		ps := []ExtProp{{Name: fmt.Sprintf("vt%d", i), Domain: []string{t.Name}, Range: []string{"xsd:string"}, Functional: i%2 == 0}}
+		if t.Typeless {
+			// a typeless value can only occur embedded: give it a property that hosts it in documents
+			ps = append(ps, ExtProp{Name: fmt.Sprintf("vth%d", i), Domain: []string{"as:Object"}, Range: []string{t.Name}, Functional: true})
+		}
+		out = append(out, ExtVocab{Label: "type-" + t.Name, Types: ts, Props: ps})
 	}
 	for i, r := range extRanges {
 		ts := []ExtType{extTypes[0], extTypes[1]}
